@@ -37,7 +37,7 @@ theorem trivia_gen_eq (hs : SkipTotal g) (n k : Nat) (cg c1 : PState) (ps0 : Lis
   parseTrivia_gen g (run_gen g inp hs n) (run_good g inp hs n) k cg c1 ps0 s pg p1
 
 theorem srel_refl_init (k : Nat) : SRel (PState.init k) (PState.init k) :=
-  ⟨rfl, rfl, rfl, DStack.inv_empty, rfl, rfl, rfl, rfl, rfl, rfl⟩
+  ⟨rfl, rfl, rfl, DStack.inv_empty, rfl, rfl, ⟨rfl, rfl⟩, rfl, rfl, rfl⟩
 
 /-- **The generated module's `parse()` vs `Parser.parse()`**, for every start rule that has a
     generated function (grammar rules and EOI), every input, start position and fuel: both run
